@@ -31,8 +31,10 @@ Definition c12_tokens_model (c : string * list string) : bool :=
   | Some t => forallb (fun x => x) (map (fun ab => String.eqb (fst ab) (snd ab)) (combine t toks)) && Nat.eqb (length t) (length toks)
   | None => false
   end && (String.eqb p "$" ||
-          (forallb (fun x => x) (map (fun ab => String.eqb (fst ab) (snd ab)) (combine (ref_tokens p) toks))
-           && Nat.eqb (length (ref_tokens p)) (length toks))).
+          match ref_tokens p with
+          | Some rt => forallb (fun x => x) (map (fun ab => String.eqb (fst ab) (snd ab)) (combine rt toks)) && Nat.eqb (length rt) (length toks)
+          | None => false
+          end).
 
 (* merge_result: the state's ResultPath (absent = "$", null = discard the result) then its OutputPath
    (absent = "$", null = {}) *)
